@@ -1,5 +1,6 @@
 #!/bin/bash
-# seedmatrix.sh [name-filter]: run every stored seeded change against its property's quick check.
+# seedmatrix.sh [name-filter] [property]: run every stored seeded change (of that property) against its property's quick check
+# (C13: the four battery histories only, -budget 1).
 # Works in a scratch worktree of /repo's HEAD (never touches /repo), through VERIF_REPO.
 # Writes one line per change to stdout: name, property, exit status, violation classes.
 V=$(cd "$(dirname "$0")/.." && pwd)
@@ -10,13 +11,16 @@ for d in "$V"/seeded/*/; do
   name=$(basename "$d")
   case "$name" in *"${1:-}"*) ;; *) continue;; esac
   prop=$(python3 -c "import json,sys; print(json.load(open(sys.argv[1]))['property'])" "$d/meta.json")
+  [ -n "${2:-}" ] && [ "$2" != "$prop" ] && [ "${2#!}" = "$2" ] && continue
+  [ -n "${2:-}" ] && [ "${2#!}" != "$2" ] && [ "${2#!}" = "$prop" ] && continue
+  extra=(); [ "$prop" = C13 ] && extra=(-budget 1)
   p="$d/patch.diff"; [ -f "$d/patch-on-fixed-tree.diff" ] && p="$d/patch-on-fixed-tree.diff"
   git -C "$WT" checkout -q -- . ; git -C "$WT" clean -fdq
   if ! git -C "$WT" apply "$p" 2>/dev/null && ! git -C "$WT" apply -3 "$p" >/dev/null 2>&1; then
     git -C "$WT" checkout -q -- . 2>/dev/null; git -C "$WT" reset -q --hard
     echo "$name $prop patch-does-not-apply-on-HEAD"; continue
   fi
-  out=$(VERIF_REPO="$WT" "$V/vcheck" "$prop" --tier quick 2>&1); rc=$?
+  out=$(VERIF_REPO="$WT" "$V/vcheck" "$prop" --tier quick "${extra[@]}" 2>&1); rc=$?
   classes=$(echo "$out" | grep -o "class=[a-z0-9-]*" | sort | uniq -c | sort -rn | awk '{printf "%s(%s) ", $2, $1}')
   echo "$name $prop exit=$rc ${classes:-none}"
   git -C "$WT" reset -q --hard
